@@ -81,6 +81,20 @@ def gen_trace(recipe):
   opts = gen.options(rng, name, d, len(set(tr['y'].tolist())))
   opts['preprocessor'] = prep
   est, tr, opts = gen.fitted(rng, name, opts=opts, train=tr)
+  if recipe.get('refit'):
+    # the SAME object is then fitted on other data of the same dimensionality, every view is used, and it is fitted back on
+    # the first data: the views of a model are those of its current components_ (nothing may survive a refit)
+    import warnings as _w
+    rng2 = np.random.default_rng(recipe['seed'] + 1)
+    tr2 = gen.training(rng2, name, d=d)
+    with _w.catch_warnings():
+      _w.simplefilter('ignore')
+      try:
+        est.fit(*tr2['fit_args'], **tr2['fit_kwargs'])
+        est.get_mahalanobis_matrix(); est.get_metric(); est.transform(tr2['X'][:3]); est.pair_distance(tr2['X'][:4].reshape(2, 2, -1))
+      except (RuntimeError, ValueError):
+        pass          # (this data does not suit the sampled options, e.g. SDML's solver: the first data is fitted again anyway)
+      est.fit(*tr['fit_args'], **tr['fit_kwargs'])
   if recipe['qkind'] == 'random':
     # two query points whose difference the learned transformation annihilates (rank-deficient models)
     v = c01.null_direction(est.components_)
@@ -89,8 +103,21 @@ def gen_trace(recipe):
   P = [(0, 1), (0, 2), (2, 0), (3, 4), (4, 5), (5, 5), (1, 3), (2, 5), (2, 3), (3, 2)]
   rl = reprs_for(off, recipe['qkind'] == 'integer')
   ev = obs.views_event(est, Xq, P, rl)
-  # single-pair batches
+  # one LARGE batch (more pairs / points than any buffer or chunk size a vectorised implementation is likely to use): the
+  # query pairs sit at the start, around 2^16 and at the very end of 70 001 pairs; the outputs at those positions are logged
   pairs = Xq[np.asarray(P)]
+  nbig = 70001
+  pos = [0, 1, 2, 65535, 65536, 65537, nbig - 4, nbig - 3, nbig - 2, nbig - 1][:len(P)]
+  big = np.repeat(pairs[:1], nbig, axis=0)
+  big[pos] = pairs[:len(pos)]
+  bigX = np.repeat(Xq[:1], nbig, axis=0)
+  xpos = [0, 65535, 65536, nbig - 3, nbig - 2, nbig - 1][:nq]
+  bigX[xpos] = Xq[:len(xpos)]
+  pd_big = np.asarray(est.pair_distance(big))
+  t_big = np.asarray(est.transform(bigX))
+  if len(pos) == len(P) and len(xpos) == nq:
+    ev['reprs'].append({'name': 'large_batch', 'pd': obs.dyv(pd_big[pos]), 'transform': obs.dym(t_big[xpos])})
+  # single-pair batches
   single = np.concatenate([est.pair_distance(pairs[i:i + 1]) for i in range(len(P))])
   tsingle = np.vstack([est.transform(Xq[i:i + 1]) for i in range(nq)])
   ev['reprs'].append({'name': 'single_batches', 'pd': obs.dyv(single), 'transform': obs.dym(tsingle)})
@@ -117,7 +144,8 @@ def recipes(ctx):
   for name in gen.ALL:
     for c in range(n_cfg):
       out.append(dict(est=name, d=int(rng.integers(2, 5 if ctx.quick else 9)), seed=int(rng.integers(1 << 30)),
-                      qkind=['integer', 'train', 'random'][c % 3], prep=['array', 'callable'][(c // 3 + c) % 2]))
+                      qkind=['integer', 'train', 'random'][c % 3], prep=['array', 'callable'][(c // 3 + c) % 2],
+                      refit=bool(c % 2)))
   return out
 
 
